@@ -1,5 +1,7 @@
 //! loader-sched: concurrent `fetch_with` calls on a cache with a sync loader under
-//! the cooperative scheduler (the loader threads the cache spawns are adopted).
+//! the cooperative scheduler (the loader threads the cache spawns are adopted), and - `is_async` -
+//! on an AsyncCache with an async loader whose tasks run on scheduler-managed threads (the driver's
+//! own TaskSpawner), callers on a park-based executor whose wakers go through the scheduler.
 
 use crate::ctl::{Ctl, Outcome, Strategy};
 use crate::hist;
@@ -10,7 +12,53 @@ use rand::{Rng, SeedableRng};
 use serde_json::json;
 use std::sync::atomic::{AtomicBool, AtomicU32, Ordering};
 use std::sync::Arc;
+use std::future::Future;
+use std::pin::Pin;
+use std::task::{Context, Poll, Wake, Waker};
 use std::time::Duration;
+
+struct SchedWaker {
+  ctl: Arc<Ctl>,
+  th: std::thread::Thread,
+}
+impl Wake for SchedWaker {
+  fn wake(self: Arc<Self>) {
+    self.wake_by_ref()
+  }
+  fn wake_by_ref(self: &Arc<Self>) {
+    self.ctl.unpark(self.th.id());
+    self.th.unpark();
+  }
+}
+
+/// Drives a future on the calling (managed) thread: Pending -> park through the scheduler.
+#[track_caller]
+fn block_on<F: Future>(ctl: &Arc<Ctl>, f: F) -> F::Output {
+  let mut f = std::pin::pin!(f);
+  let waker = Waker::from(Arc::new(SchedWaker { ctl: ctl.clone(), th: std::thread::current() }));
+  let mut cx = Context::from_waker(&waker);
+  loop {
+    if let Poll::Ready(v) = f.as_mut().poll(&mut cx) {
+      return v;
+    }
+    Controller::park(&**ctl, None, std::panic::Location::caller());
+  }
+}
+
+/// Runs every task the cache spawns on its own thread, adopted by the scheduler.
+struct AdoptSpawner {
+  ctl: Arc<Ctl>,
+}
+impl fibre_cache::TaskSpawner for AdoptSpawner {
+  fn spawn(&self, future: Pin<Box<dyn Future<Output = ()> + Send>>) {
+    fibre::verif::expect_adoption();
+    let ctl = self.ctl.clone();
+    std::thread::spawn(move || {
+      let _guard = fibre::verif::adopt();
+      block_on(&ctl, future);
+    });
+  }
+}
 
 pub struct Cfg {
   pub threads: usize,
@@ -21,6 +69,7 @@ pub struct Cfg {
   pub strategy: String,
   pub invalidate: bool,
   pub kf: Vec<String>,
+  pub is_async: bool,
 }
 
 pub struct RunStat {
@@ -30,6 +79,9 @@ pub struct RunStat {
 }
 
 pub fn run(cfg: &Cfg) -> RunStat {
+  if cfg.is_async {
+    return run_async(cfg);
+  }
   let gen_ = hist::begin();
   hist::push(json!({"k":"new","kf":cfg.kf,"threads":cfg.threads,"keys":cfg.keys}));
   // PCT: the expected run length k is drawn per run (many races sit in the first few steps,
@@ -90,6 +142,109 @@ pub fn run(cfg: &Cfg) -> RunStat {
         cur2[tid].store(o, Ordering::SeqCst);
         hist::push(json!({"k":"call","o":o,"op":"fetch","key":key}));
         let v = cache2.fetch_with(&key);
+        hist::push(json!({"k":"ret","o":o,"v":*v}));
+        cur2[tid].store(0, Ordering::SeqCst);
+      }
+    }));
+  }
+  let outcome = ctl.run(Duration::from_secs(30));
+  if outcome.all_done && !outcome.step_limit && !outcome.stuck {
+    hist::push(json!({"k":"end"}));
+  } else if !outcome.stuck && !outcome.step_limit {
+    let blocked: Vec<u32> = outcome.blocked.iter().filter(|&&t| t < cfg.threads).map(|&t| cur[t].load(Ordering::SeqCst)).filter(|&o| o != 0).collect();
+    hist::push(json!({"k":"quiesce","blocked":blocked}));
+    hist::push(json!({"k":"hung"}));
+  } else {
+    hist::push(json!({"k":"inconclusive"}));
+  }
+  let records = hist::take();
+  abort.store(true, Ordering::SeqCst);
+  hist::begin();
+  ctl.release_all();
+  let deadline = std::time::Instant::now() + Duration::from_millis(1500);
+  let mut leaked = 0;
+  for (tid, j) in joins.into_iter().enumerate() {
+    loop {
+      if j.is_finished() {
+        let _ = j.join();
+        break;
+      }
+      if std::time::Instant::now() > deadline {
+        leaked += 1;
+        break;
+      }
+      ctl.kick(tid);
+      std::thread::sleep(Duration::from_millis(5));
+    }
+  }
+  fibre::verif::set_global(None);
+  drop(cache);
+  RunStat { outcome, leaked, records }
+}
+
+/// The same scenario on an AsyncCache with an async loader.
+fn run_async(cfg: &Cfg) -> RunStat {
+  let gen_ = hist::begin();
+  hist::push(json!({"k":"new","kf":cfg.kf,"threads":cfg.threads,"keys":cfg.keys,"fl":"async"}));
+  let ks = [6u64, 12, 25, 50, 100, 200, 400];
+  let k = ks[((cfg.seed / 7) % ks.len() as u64) as usize];
+  let strat = match cfg.strategy.as_str() {
+    "pct" => Strategy::Pct { d: 2, k },
+    "pct5" => Strategy::Pct { d: 3, k },
+    _ => Strategy::Random { p: 0.25 },
+  };
+  let ctl = Ctl::with_spares(cfg.threads, 16, cfg.seed ^ 0x7f4a7c15, strat);
+  let dynctl: Arc<dyn Controller> = ctl.clone();
+  fibre::verif::set_global(Some(dynctl));
+  let next_val = Arc::new(AtomicU32::new(100));
+  let nv = next_val.clone();
+  let ctl_l = ctl.clone();
+  let cache = Arc::new(
+    CacheBuilder::<u32, u32>::new()
+      .unbounded()
+      .shards(cfg.shards)
+      .janitor_tick_interval(Duration::from_secs(3600))
+      .maintenance_chance(1 << 30)
+      .async_loader(move |k: u32| {
+        let (nv, ctl_l) = (nv.clone(), ctl_l.clone());
+        async move {
+          hist::join(gen_);
+          hist::push(json!({"k":"lstart","key":k}));
+          Controller::spin(&*ctl_l, std::panic::Location::caller());
+          let v = nv.fetch_add(1, Ordering::SeqCst);
+          hist::push(json!({"k":"ldone","key":k,"v":v}));
+          (v, 1)
+        }
+      })
+      .spawner(Arc::new(AdoptSpawner { ctl: ctl.clone() }))
+      .build_async()
+      .expect("build cache"),
+  );
+  let cur: Arc<Vec<AtomicU32>> = Arc::new((0..cfg.threads).map(|_| AtomicU32::new(0)).collect());
+  let abort = Arc::new(AtomicBool::new(false));
+  let mut joins = vec![];
+  for tid in 0..cfg.threads {
+    let (cache2, cur2, abort2, ctl2) = (cache.clone(), cur.clone(), abort.clone(), ctl.clone());
+    let seed = cfg.seed.wrapping_add(tid as u64 * 15485863);
+    let (keys, fetches, inval) = (cfg.keys, cfg.fetches, cfg.invalidate && cfg.threads == 1);
+    joins.push(ctl.spawn(tid, gen_, move || {
+      hist::join(gen_);
+      let mut rng = StdRng::seed_from_u64(seed);
+      for i in 0..fetches {
+        if abort2.load(Ordering::SeqCst) {
+          return;
+        }
+        let key = rng.random_range(1..=keys);
+        let o = (tid as u32 + 1) * 1000 + i as u32 * 2 + 1;
+        if inval && rng.random_bool(0.4) {
+          hist::push(json!({"k":"call","o":o,"op":"invalidate","key":key}));
+          block_on(&ctl2, cache2.invalidate(&key));
+          hist::push(json!({"k":"ret","o":o,"v":0}));
+          continue;
+        }
+        cur2[tid].store(o, Ordering::SeqCst);
+        hist::push(json!({"k":"call","o":o,"op":"fetch","key":key}));
+        let v = block_on(&ctl2, cache2.fetch_with(&key));
         hist::push(json!({"k":"ret","o":o,"v":*v}));
         cur2[tid].store(0, Ordering::SeqCst);
       }
